@@ -186,18 +186,30 @@ impl C05 {
         let want_sort = sort_of_type(ty);
         let mut terms: Vec<(&'static str, smt::Term)> = vec![];
         let mut cmds: Vec<(&'static str, SmtCommand)> = vec![("get-value", SmtCommand::GetValue(e))];
+        let mut assumptions: Vec<ExprRef> = vec![];
+        let mut assumption_terms: Vec<smt::Term> = vec![];
         if ty == Type::BV(1) {
             cmds.push(("assert", SmtCommand::Assert(e)));
-            let n = rng.range(1, 4) as usize;
+            // assumption lists of 1..5 Bool terms in any order: the expression, the expression under negations,
+            // and atoms (1-bit symbols of the expression, true, false), so that atoms also meet atoms
+            let n = rng.range(1, 5) as usize;
+            let mut atoms: Vec<ExprRef> = syms.iter().copied().filter(|x| s_type(ctx, *x) == Type::BV(1)).collect();
+            atoms.push(ctx.get_true());
+            atoms.push(ctx.get_false());
             let mut v = vec![e];
             for k in 1..n {
-                // further Bool terms: the expression under negations
-                let mut t = e;
-                for _ in 0..k {
-                    t = ctx.not(t);
+                if rng.flip() {
+                    v.push(*rng.pick(&atoms));
+                } else {
+                    let mut t = e;
+                    for _ in 0..k {
+                        t = ctx.not(t);
+                    }
+                    v.push(t);
                 }
-                v.push(t);
             }
+            rng.shuffle(&mut v);
+            assumptions = v.clone();
             cmds.push(("check-sat-assuming", SmtCommand::CheckSatAssuming(v)));
         }
         let def_name = ctx.string("the definition".into());
@@ -235,6 +247,14 @@ impl C05 {
                     return false;
                 }
             };
+            if cname == "check-sat-assuming" {
+                if ts.len() != assumptions.len() {
+                    fail(sh, "C05|check-sat-assuming|wrong-number-of-assumptions".into(), format!("{} assumptions were written, the text lists {}\ntext: {}", assumptions.len(), ts.len(), util::trunc(text.trim(), 1500)), ctx);
+                    return false;
+                }
+                sh.hist("assumption_list_lengths", &ts.len().to_string());
+                assumption_terms = ts.clone();
+            }
             for (k, t) in ts.iter().enumerate() {
                 match scope.sort_of(t) {
                     Err(m) => {
@@ -276,6 +296,25 @@ impl C05 {
             let mut model = Model::new();
             for s in &syms {
                 model.insert(ctx.get_symbol_name(*s).unwrap().to_string(), sval_of_val(&env[s], s_type(ctx, *s)));
+            }
+            // every assumption means what its expression means
+            for (a, t) in assumptions.iter().zip(assumption_terms.iter()) {
+                sh.count("evaluations", 1);
+                let want_a = match r2::eval(ctx, env, *a) {
+                    Ok(v) => sval_of_val(&v, Type::BV(1)),
+                    Err(_) => continue,
+                };
+                match Evaluator::new(&scope, &model).eval(t) {
+                    Ok(g) if g.same(&want_a) => {}
+                    Ok(g) => {
+                        fail(sh, "C05|check-sat-assuming|assumption-value".into(), format!("assumption {} is written as a term that evaluates to {} but the expression to {}\nenv: {}", util::trunc(&smt::show_term(t), 300), g.show(), want_a.show(), show_env(ctx, env)), ctx);
+                        return false;
+                    }
+                    Err(m) => {
+                        fail(sh, "C05|eval-error".into(), format!("check-sat-assuming: {m}"), ctx);
+                        return false;
+                    }
+                }
             }
             for (cname, t) in terms.iter() {
                 sh.count("evaluations", 1);
